@@ -23,7 +23,8 @@ V(op, key, power) == [op |-> op, key |-> key, power |-> power]
 MaxH == IF Thorough THEN 4 ELSE 3
 
 GenSets == { << >>, << V("v1", "k1", 1) >>, << V("v1", "k1", 1), V("v2", "k2", 1) >>, << V("v2", "k2", 0) >>,
-             << V("v1", "k1", 1), V("v2", "k2", 0) >>, << V("v1", "k1", 1), V("v2", "k1", 1) >> }
+             << V("v1", "k1", 1), V("v2", "k2", 0) >>, << V("v1", "k1", 1), V("v2", "k1", 1) >>,
+             << V("v1", "k1", 1), V("v2", "k1", 0) >> }      \* a zero-power entry sharing the key of a live validator
 Genesis(params) == {[type |-> "InitGenesis", params |-> p, vals |-> g] : p \in params, g \in GenSets}
 
 WouldEmpty(s) ==
